@@ -4,11 +4,80 @@ import (
 	"context"
 	"fmt"
 	"os"
+	"time"
 
 	"0chain.net/chaincore/block"
+	"0chain.net/chaincore/client"
 	"0chain.net/chaincore/transaction"
+	"0chain.net/core/common"
+	"0chain.net/core/encryption"
 	"verifharness/lib/minerfix"
 )
+
+// runAggregator drives the real miner.Chain.ValidateTransactions all the way through the signature aggregation: client
+// signature scheme bls0chain (the fixture's), validation batch size 4, blocks of 5 / 9 / 13 correctly signed transactions
+// (more than one batch, not a multiple of the batch size), `reps` blocks. The lock-free
+// encryption.BLS0ChainAggregateSignatureScheme is shared by the batch workers; it is race-free only while worker k is
+// the sole writer of slot k (ownership by index, Model/IndexOwn.lean). Every validation must succeed: the blocks are valid.
+func runAggregator(idx int, reps int) {
+	f := minerfix.New(minerfix.Opts{N: 4, T: 3, Self: 0, ThresholdByCount: 60, ValidationBatchSize: 4})
+	defer f.Close()
+	mc := f.MC
+	mc.SetCurrentRound(7)
+	transaction.TXN_TIME_TOLERANCE = 600
+	ss := encryption.NewBLS0ChainScheme()
+	if err := ss.GenerateKeys(); err != nil {
+		panic(err)
+	}
+	cl := client.NewClient()
+	if err := cl.SetPublicKey(ss.GetPublicKey()); err != nil {
+		panic(err)
+	}
+	cl.ID = encryption.Hash(cl.PublicKeyBytes)
+	if err := client.PutClientCache(cl); err != nil {
+		panic(err)
+	}
+	to := encryption.Hash("receiver")
+	fmt.Fprintf(os.Stderr, "=== SCEN %d VT.aggregator VT.aggregator scheme=%s batch=%d\n", idx, mc.ClientSignatureScheme(), mc.ValidationBatchSize())
+	failed, first := 0, ""
+	nonce := int64(0)
+	for rep := 0; rep < reps; rep++ {
+		n := 5 + 4*(rep%3)
+		b := block.NewBlock(mc.ID, 7)
+		b.CreationDate = common.Now()
+		for i := 0; i < n; i++ {
+			t := transaction.Provider().(*transaction.Transaction)
+			t.ClientID = cl.ID
+			t.PublicKey = cl.PublicKey
+			t.ToClientID = to
+			t.Value = 1
+			nonce++
+			t.Nonce = nonce
+			t.CreationDate = b.CreationDate
+			t.TransactionData = fmt.Sprintf("txn-%d-%d", rep, i)
+			t.Hash = t.ComputeHash()
+			sig, err := ss.Sign(t.Hash)
+			if err != nil {
+				panic(err)
+			}
+			t.Signature = sig
+			t.OutputHash = t.ComputeOutputHash()
+			b.Txns = append(b.Txns, t)
+		}
+		b.HashBlock()
+		ctx, cancel := context.WithTimeout(context.Background(), 2*time.Minute)
+		err := mc.ValidateTransactions(ctx, b)
+		cancel()
+		if err != nil {
+			failed++
+			if first == "" {
+				first = err.Error()
+			}
+		}
+	}
+	fmt.Fprintf(os.Stderr, "=== AGG validations=%d failed=%d first=%q\n", reps, failed, first)
+	fmt.Fprintf(os.Stderr, "=== END %d\n", idx)
+}
 
 // runVT drives the real miner.Chain.ValidateTransactions (exported; the chain object is the fixture of
 // harness/lib/minerfix, validation batch size 2) with blocks of 8 transactions = 4 worker goroutines:
